@@ -165,6 +165,7 @@ fn main() {
     let r = match args.get(1).map(|s| s.as_str()) {
         Some("replay") if args.len() >= 5 => replay(&args[2], &args[3], &args[4], threads),
         Some("record") if args.len() >= 4 => checks::record(&args[2], &args[3], &args[4..]),
+        Some("builder") if args.len() >= 6 => checks::genout::cmd_builder(&args[2], &args[3..]),
         Some("gen") if args.len() >= 3 => checks::genout::cmd_gen(&args[2], &args[3..]),
         Some("run") if args.len() >= 4 => checks::cmd_run(&args[2], &args[3], &args[4..]),
         _ => Err(anyhow::anyhow!("usage: pv replay|record|run ...")),
